@@ -378,7 +378,9 @@ def check_awaiters(ctx, fx):
                 # and the result reaches the return place
                 sk = sinks(b, t["dest"][0])
                 maps = [s for s in sk if s["k"] == "call" and (s["t"].get("callee") or "").endswith("::map")]
-                ok = any(s["k"] == "ret" for s in sk) or bool(maps)
+                # `Poll::map_err(Into::into)` converts the error of a ready result only
+                errmaps = [s for s in sk if s["k"] == "call" and (s["t"].get("callee") or "").endswith("::map_err") and "core::task::poll::Poll<" in (s["t"].get("argtys") or [""])[0] and (s["t"]["args"][1].get("fn") or "").endswith(("::into", "::from"))]
+                ok = any(s["k"] == "ret" for s in sk) or bool(maps) or bool(errmaps)
                 # the mapping closure must pass the poll result on (only converting the error)
                 for ms in maps:
                     for o in b.origins(ms["t"]["args"][1]):
@@ -395,7 +397,7 @@ def check_awaiters(ctx, fx):
                                         ct = cb.blocks[r.site[0]]["t"]
                                         through = through and all(x.kind == "arg" for x in _roots(cb, ct["args"][0]))
                                 ok = ok and through and bool(rr)
-                if not maps and not any(s["k"] == "ret" for s in sk):
+                if not maps and not errmaps and not any(s["k"] == "ret" for s in sk):
                     # explicit form `match poll { Ready(r) => { ..; Ready(r.map_err(..)) } Pending => Pending }`: each
                     # outcome is answered by the same outcome, carrying the polled result
                     ok = _poll_forwarded_by_match(ctx, fx, b, bi, t)
